@@ -44,6 +44,46 @@ func step(ws []string) string {
 		st.lb.AddCount(i, int32(d))
 		st.counts[i] += int32(d)
 		return fmt.Sprintf("count=%d", st.lb.Count(i))
+	case "lcrun": // k accepts in a row, each counted on the loop the balancer chose (what eventloop.register does)
+		k := atoi(ws[1])
+		spread := func() int32 {
+			lo, hi := st.counts[0], st.counts[0]
+			for _, c := range st.counts {
+				if c < lo {
+					lo = c
+				}
+				if c > hi {
+					hi = c
+				}
+			}
+			return hi - lo
+		}
+		before := spread()
+		for j := 0; j < k; j++ {
+			idx := -1
+			func() {
+				defer func() {
+					if r := recover(); r != nil {
+						util.Fail(fmt.Sprintf("next with %d loops panicked: %v", st.n, r))
+					}
+				}()
+				idx = st.lb.Next("")
+			}()
+			if idx < 0 || idx >= st.n {
+				util.Fail(fmt.Sprintf("next returned something that is not a registered loop (%d)", idx))
+				return fmt.Sprintf("idx=%d", idx)
+			}
+			st.lb.AddCount(idx, 1)
+			st.counts[idx]++
+		}
+		if after := spread(); st.kind == "lc" && before <= 1 && after > 1 {
+			util.Fail(fmt.Sprintf("least connections: loops were within one connection of each other, after %d accepts they are %d apart", k, after))
+		}
+		parts := make([]string, st.n)
+		for i := range parts {
+			parts[i] = strconv.Itoa(int(st.lb.Count(i)))
+		}
+		return "counts=[" + strings.Join(parts, ", ") + "]"
 	case "next":
 		addr := string(util.UnHex(ws[1]))
 		idx := -1
@@ -157,8 +197,16 @@ func main() {
 			if kind == "rr" && r.Intn(4) == 0 {
 				nops = n*r.Pick(1, 2, 3) + r.Intn(3)
 			}
+			if kind == "lc" && r.Intn(3) == 0 { // a fresh engine taking a burst of accepts
+				k := r.Pick(0, 1, n-1, n, n+1, 2*n+1, r.Intn(3*n+2))
+				fmt.Fprintf(&b, "lcrun %d\n", k)
+				hist["lcrun-fresh"]++
+			}
 			for i := 0; i < nops; i++ {
 				switch {
+				case kind == "lc" && r.Intn(6) == 0: // a burst of accepts from whatever the counts are now
+					fmt.Fprintf(&b, "lcrun %d\n", r.Intn(n+3))
+					hist["lcrun"]++
 				case kind == "lc" && r.Intn(2) == 0: // accepts and closes change the counts
 					j := r.Intn(n)
 					d := 1
